@@ -389,7 +389,7 @@ bool moveInitialValues(TM &m, Src &src)
             continue;
         }
         auto where = m.compsWith(static_cast<int>(k));
-        if (where.size() < 2 || !src.flip(50)) {
+        if (where.size() < 2 || !src.flip(70)) {
             continue;
         }
         size_t from = where.size();
@@ -744,6 +744,7 @@ const char *variantName(int v)
     case V_INITIALISED_VOI: return "initialised-voi";
     case V_SECOND_ORDER: return "second-order-ode";
     case V_UNUSED_VARIABLE: return "unused-variable";
+    case V_EXTRA_NLA_EQUATION: return "extra-nla-equation";
     }
     return "?";
 }
@@ -1080,6 +1081,52 @@ bool applyVariant(TM &m, int v, Src &src, std::string &expectedType, std::string
         }
         expectedType = "underconstrained";
         what = "added a variable that no equation mentions to component " + c.name;
+        break;
+    }
+    case V_EXTRA_NLA_EQUATION: {
+        // one equation more than unknowns in a system whose unknowns all carry an initial guess (the extra equation mentions
+        // nothing but the unknowns, so it cannot be read as defining anything else)
+        std::vector<size_t> sys;
+        for (size_t k = 0; k < m.systems.size(); ++k) {
+            bool all = !m.systems[k].empty();
+            for (int u : m.systems[k]) {
+                all = all && m.classes[static_cast<size_t>(u)].guess;
+            }
+            if (all && m.homeComp(m.systems[k][0]) >= 0) {
+                sys.push_back(k);
+            }
+        }
+        if (sys.empty()) {
+            return false;
+        }
+        size_t k = src.pick(sys);
+        size_t ci = static_cast<size_t>(m.homeComp(m.systems[k][0]));
+        std::vector<Expr> terms;
+        int coef = 3;
+        for (int u : m.systems[k]) {
+            int v = m.instanceIn(u, ci);
+            if (v < 0 || (!terms.empty() && src.flip(30))) {
+                continue;
+            }
+            terms.push_back(Expr::make(Op::TIMES, {lit(std::to_string(coef)), Expr::ci(m.spec.comps[ci].vars[static_cast<size_t>(v)].name)}));
+            coef += 4;
+        }
+        if (terms.empty()) {
+            return false;
+        }
+        terms.push_back(lit("0.5"));
+        Eq e;
+        e.system = static_cast<int>(k);
+        e.lhs = Expr::make(Op::PLUS, terms);
+        e.rhs = lit("7");
+        if (src.flip(30)) {
+            std::swap(e.lhs, e.rhs);
+        }
+        size_t pos = src.below(m.eqs[ci].size() + 1);
+        m.eqs[ci].insert(m.eqs[ci].begin() + static_cast<long>(pos), e);
+        m.blocks[ci].clear();
+        expectedType = "overconstrained";
+        what = "added one more implicit equation to NLA system " + std::to_string(k) + " than it has unknowns";
         break;
     }
     default:
